@@ -1,6 +1,241 @@
 import EupsModel.Drv.Util
+import EupsModel.Model.Record
 namespace EupsModel.Drv.C16
-open Lean EupsModel EupsModel.Drv
-/-- placeholder until the C16 model exists -/
-def handle : Handler := fun _ => throw "model C16 not built"
+open Lean EupsModel EupsModel.Drv EupsModel.Record
+
+def errName : Err → String
+  | .unexpectedLine => "UnexpectedLine" | .badFile => "BadFile" | .keyError => "KeyError"
+  | .typeError => "TypeError" | .noMatch => "NoMatch" | .notFound => "NotFound"
+  | .unbound => "Unbound" | .unmodelled => "unmodelled"
+
+def errJson (e : Err) : Json := Json.mkObj [("err", Json.str (errName e))]
+
+def fldToJson (k : String) : Fld → List (String × Json)
+  | .absent => []
+  | .pyNone => [(k, Json.null)]
+  | .val s => [(k, ofStr s)]
+
+def fldOfJson (j : Json) (k : String) : Except String Fld :=
+  match j.getObjVal? k with
+  | .error _ => pure .absent
+  | .ok Json.null => pure .pyNone
+  | .ok v => do pure (.val (Str.ofString (← v.getStr?)))
+
+def infoToJson (i : Info) : Json :=
+  Json.mkObj (fldToJson "declarer" i.declarer ++ fldToJson "declared" i.declared ++
+    fldToJson "modifier" i.modifier ++ fldToJson "modified" i.modified ++
+    fldToJson "productDir" i.productDir ++ fldToJson "ups_dir" i.upsDir ++ fldToJson "table_file" i.tableFile)
+
+def infoOfJson (j : Json) : Except String Info := do
+  pure { declarer := ← fldOfJson j "declarer", declared := ← fldOfJson j "declared",
+         modifier := ← fldOfJson j "modifier", modified := ← fldOfJson j "modified",
+         productDir := ← fldOfJson j "productDir", upsDir := ← fldOfJson j "ups_dir",
+         tableFile := ← fldOfJson j "table_file" }
+
+def cinfoToJson (i : CInfo) : Json :=
+  Json.mkObj (fldToJson "version" i.version ++ fldToJson "declarer" i.declarer ++ fldToJson "declared" i.declared ++
+    fldToJson "modifier" i.modifier ++ fldToJson "modified" i.modified)
+
+def cinfoOfJson (j : Json) : Except String CInfo := do
+  pure { version := ← fldOfJson j "version", declarer := ← fldOfJson j "declarer", declared := ← fldOfJson j "declared",
+         modifier := ← fldOfJson j "modifier", modified := ← fldOfJson j "modified" }
+
+def flavorsToJson {α : Type} (f : α → Json) (l : List (Str × α)) : Json :=
+  Json.arr (l.map fun (k, v) => Json.arr #[ofStr k, f v]).toArray
+
+def flavorsOfJson {α : Type} (f : Json → Except String α) (j : Json) : Except String (List (Str × α)) := do
+  (← j.getArr?).toList.mapM fun e => do
+    let a ← e.getArr?
+    match a.toList with
+    | [k, v] => pure (Str.ofString (← k.getStr?), ← f v)
+    | _ => throw "flavor entry"
+
+def vrecToJson (r : VRec) : Json :=
+  Json.mkObj [("name", ofStrOpt r.name), ("version", ofStrOpt r.version), ("flavors", flavorsToJson infoToJson r.flavors)]
+
+def vrecOfJson (j : Json) : Except String VRec := do
+  pure { name := ← jstrOpt j "name", version := ← jstrOpt j "version",
+         flavors := ← flavorsOfJson infoOfJson (← j.getObjVal? "flavors") }
+
+def crecToJson (r : CRec) : Json :=
+  Json.mkObj [("name", ofStrOpt r.name), ("tag", ofStrOpt r.tag), ("flavors", flavorsToJson cinfoToJson r.flavors)]
+
+def crecOfJson (j : Json) : Except String CRec := do
+  pure { name := ← jstrOpt j "name", tag := ← jstrOpt j "tag",
+         flavors := ← flavorsOfJson cinfoOfJson (← j.getObjVal? "flavors") }
+
+def pvalOfJson (j : Json) (k : String) : Except String PVal := do
+  pure (PVal.ofOpt (← jstrOpt j k))
+
+def pvalToJson (v : PVal) : Json := ofStrOpt v.toStr
+
+def prodOfJson (j : Json) : Except String Prod := do
+  pure { name := ← jstr j "name", version := ← jstr j "version", flavor := ← jstr j "flavor",
+         dir := ← pvalOfJson j "dir", table := ← pvalOfJson j "table", upsDir := ← pvalOfJson j "ups_dir",
+         db := Path.ofStr (← jstr j "db") }
+
+def prodToJson (p : Prod) : Json :=
+  Json.mkObj [("name", ofStr p.name), ("version", ofStr p.version), ("flavor", ofStr p.flavor),
+    ("dir", pvalToJson p.dir), ("table", pvalToJson p.table), ("ups_dir", pvalToJson p.upsDir),
+    ("db", ofStr p.db.toStr), ("extra", ofStr (extraDir p).toStr)]
+
+def exOfJson (j : Json) : Except String (Path → Bool) := do
+  let l := (← jstrs j "ex").map Path.ofStr
+  pure fun p => l.contains p
+
+def optText : Option Str → Json
+  | none => Json.null
+  | some s => ofStr s
+
+def segsOfJson (j : Json) (k : String) : Except String (List Str) := do
+  pure (Path.ofStr (← jstr j k)).segs
+
+def dirPlOfJson (j : Json) : Except String DirPl := do
+  match ← (← j.getObjVal? "kind").getStr? with
+  | "inside" => pure (.inside (← segsOfJson j "rel"))
+  | "outside" => pure (.outside (← segsOfJson j "path"))
+  | "none" => pure .none
+  | k => throw s!"dir placement {k}"
+
+def tabPlOfJson (j : Json) : Except String TabPl := do
+  match ← (← j.getObjVal? "kind").getStr? with
+  | "ups" => pure .inUps
+  | "abs_inside" => pure (.absInside (← segsOfJson j "rel"))
+  | "abs_outside" => pure (.absOutside (← segsOfJson j "path"))
+  | "interned" => pure .interned
+  | "none" => pure .none
+  | k => throw s!"table placement {k}"
+
+/-- Requests `{"m":"c16","op":...}`:
+* `vparse {name?,version?,text}` / `cparse {name?,tag?,text}` → `{"rec":…}` or `{"err":…}`
+* `vprint {rec}` / `cprint {rec}` → `{"text": string|null}` or `{"err":…}`
+* `declare {prod, ex, who, now, old_text|null}` → the version record after `Database.declare` and its text
+* `resolve {text, name, version, flavor, db, ex}` → the product a reader of that text builds
+* `resolveprod {prod, ex}` → `Product(...).resolvePaths()` (what `ProductStack.addProduct` caches)
+* `glue {root, name, version, flavor, dir:{kind,..}, table:{kind,..}}` → the Product `Eups.declare` builds, and
+  the locations a reader at `new_root` must report
+* `dbop {name, versions:[[v,text]..], chains:[[tag,text]..], dbop:{kind: undeclare|unassign|assign|retag, flavor, version?, tag?, who?, now?}}`
+  → the texts of the product's records after `Database.undeclare / unassignTag / assignTag`
+* `chainset {old_text|null, name, tag, flavor, version, who, now}` / `chainremove {old_text, name, tag, flavor}` -/
+def handle : Handler := fun j => do
+  let op ← (← j.getObjVal? "op").getStr?
+  match op with
+  | "vparse" =>
+    match parseVersion (← jstrOpt j "name") (← jstrOpt j "version") (← jstr j "text") with
+    | .ok r => pure (Json.mkObj [("rec", vrecToJson r)])
+    | .error e => pure (errJson e)
+  | "cparse" =>
+    match parseChain (← jstrOpt j "name") (← jstrOpt j "tag") (← jstr j "text") with
+    | .ok r => pure (Json.mkObj [("rec", crecToJson r)])
+    | .error e => pure (errJson e)
+  | "vprint" =>
+    match printVersion (← vrecOfJson (← j.getObjVal? "rec")) with
+    | .ok t => pure (Json.mkObj [("text", optText t)])
+    | .error e => pure (errJson e)
+  | "cprint" =>
+    match printChain (← crecOfJson (← j.getObjVal? "rec")) with
+    | .ok t => pure (Json.mkObj [("text", optText t)])
+    | .error e => pure (errJson e)
+  | "declare" =>
+    let p ← prodOfJson (← j.getObjVal? "prod")
+    let ex ← exOfJson j
+    let old : Except Err VRec := match ← jstrOpt j "old_text" with
+      | some t => parseVersion (some p.name) (some p.version) t
+      | none => .ok { name := some p.name, version := some p.version, flavors := [] }
+    match old with
+    | .error e => pure (errJson e)
+    | .ok vr =>
+      match declareRec ex (← jstr j "who") (← jstr j "now") vr p with
+      | .error e => pure (errJson e)
+      | .ok r =>
+        match printVersion r with
+        | .ok t => pure (Json.mkObj [("rec", vrecToJson r), ("text", optText t)])
+        | .error e => pure (errJson e)
+  | "resolve" =>
+    let ex ← exOfJson j
+    match parseVersion (← jstrOpt j "name") (← jstrOpt j "version") (← jstr j "text") with
+    | .error e => pure (errJson e)
+    | .ok vr =>
+      match makeProduct ex vr (← jstr j "flavor") (Path.ofStr (← jstr j "db")) with
+      | .ok p =>
+        -- what the cache holds: `ProductStack.addProduct` clones the product and resolves it once more
+        let again : Json := match resolvePaths ex (p.init ex) with
+          | .ok p2 => prodToJson p2
+          | .error e => errJson e
+        pure (Json.mkObj [("prod", prodToJson p), ("cached", again)])
+      | .error e => pure (errJson e)
+  | "resolveprod" =>
+    let ex ← exOfJson j
+    let p ← prodOfJson (← j.getObjVal? "prod")
+    match resolvePaths ex (p.init ex) with
+    | .ok p => pure (Json.mkObj [("prod", prodToJson p)])
+    | .error e => pure (errJson e)
+  | "glue" =>
+    let root ← segsOfJson j "root"
+    let name ← jstr j "name"; let version ← jstr j "version"; let flavor ← jstr j "flavor"
+    let d ← dirPlOfJson (← j.getObjVal? "dir")
+    let t ← tabPlOfJson (← j.getObjVal? "table")
+    let newRoot ← segsOfJson j "new_root"
+    pure (Json.mkObj [("prod", prodToJson (declaredProd root name version flavor d t)),
+      ("want_dir", pvalToJson (d.at newRoot)), ("want_table", pvalToJson (t.at newRoot name version flavor d))])
+  | "chainset" =>
+    let name ← jstr j "name"; let tag ← jstr j "tag"
+    let old : Except Err CRec := match ← jstrOpt j "old_text" with
+      | some t => parseChain (some name) (some tag) t
+      | none => .ok { name := some name, tag := some tag, flavors := [] }
+    match old with
+    | .error e => pure (errJson e)
+    | .ok cr =>
+      let r := cr.setVersion (← jstr j "flavor") (← jstr j "version") (← jstr j "who") (← jstr j "now")
+      match printChain r with
+      | .ok t => pure (Json.mkObj [("rec", crecToJson r), ("text", optText t)])
+      | .error e => pure (errJson e)
+  | "chainremove" =>
+    let name ← jstr j "name"; let tag ← jstr j "tag"
+    match parseChain (some name) (some tag) (← jstr j "old_text") with
+    | .error e => pure (errJson e)
+    | .ok cr =>
+      let r := cr.removeVersion (← jstr j "flavor")
+      match printChain r with
+      | .ok t => pure (Json.mkObj [("rec", crecToJson r), ("text", optText t)])
+      | .error e => pure (errJson e)
+  | "dbop" =>
+    -- the records of one product directory as texts; one database-layer operation; the texts afterwards
+    let parseAll {α : Type} (f : Str → Except Err α) (k : String) : Except String (Except Err (List (Str × α))) := do
+      let items ← jarr j k
+      let mut out : List (Str × α) := []
+      for e in items do
+        match (← e.getArr?).toList with
+        | [n, t] =>
+          match f (Str.ofString (← t.getStr?)) with
+          | .ok r => out := out ++ [(Str.ofString (← n.getStr?), r)]
+          | .error er => return .error er
+        | _ => throw "record entry"
+      return .ok out
+    match ← parseAll (parseVersion none none) "versions", ← parseAll (parseChain none none) "chains" with
+    | .error e, _ => pure (errJson e)
+    | _, .error e => pure (errJson e)
+    | .ok vs, .ok cs =>
+      let d : PDir := { versions := vs, chains := cs }
+      let o ← j.getObjVal? "dbop"
+      let kind ← (← o.getObjVal? "kind").getStr?
+      let flavor ← jstr o "flavor"
+      let d' ← match kind with
+        | "undeclare" => pure (d.undeclare (← jstr o "version") flavor)
+        | "unassign" => pure (d.unassignTag (← jstr o "tag") flavor)
+        | "assign" => pure (d.assignTag (← jstr j "name") (← jstr o "tag") (← jstr o "version") flavor (← jstr o "who") (← jstr o "now"))
+        | "retag" => pure ((d.unassignTag (← jstr o "tag") flavor).assignTag (← jstr j "name") (← jstr o "tag")
+                            (← jstr o "version") flavor (← jstr o "who") (← jstr o "now"))
+        | k => throw s!"dbop {k}"
+      let vt := d'.versions.map fun (n, r) => match printVersion r with
+        | .ok (some t) => Json.arr #[ofStr n, ofStr t]
+        | .ok none => Json.arr #[ofStr n, Json.null]
+        | .error e => Json.arr #[ofStr n, errJson e]
+      let ct := d'.chains.map fun (n, r) => match printChain r with
+        | .ok (some t) => Json.arr #[ofStr n, ofStr t]
+        | .ok none => Json.arr #[ofStr n, Json.null]
+        | .error e => Json.arr #[ofStr n, errJson e]
+      pure (Json.mkObj [("versions", Json.arr vt.toArray), ("chains", Json.arr ct.toArray)])
+  | _ => throw s!"unknown op {op}"
+
 end EupsModel.Drv.C16
